@@ -15,3 +15,10 @@ package gi
 //@   ensures released: $held == 0
 //@   ensures body: forall k :: (0 <= k && k < $n) ==> ($eslot[k] == k + 1 && $escope[k] == s)
 //@   loop rangeindex: invariant body: $n == rangeindex + 1 && $held == 1 && (rangeindex >= 0 ==> $last == rangeindex + 1) && (rangeindex < 0 ==> $last == 0 - 1) && (forall k :: (0 <= k && k < $n) ==> ($eslot[k] == k + 1 && $escope[k] == s))
+
+// C19: the load form of an instance restores every instance variable (also the
+// ones whose value is nil: the flavor may give them a non-nil default).
+//@ func gi.ppInstance
+//@   property C19
+//@   full-loop len(names)
+//@   ensures one-setf-per-variable: is(result0, slip.List) && len(as(result0, slip.List)) == 3 + len(names)
